@@ -122,3 +122,25 @@ PROPS["C12"] = dict(
     assumptions=["finite task trees whose writes are consumed"],
     explanation="permit/ticker LTS composed with a task tree whose parents hold a permit while waiting for children: non-blocking release never blocks, every schedule terminates with the unlimited multiset of answers; refutation for the blocking release; real searches under max in 1..100",
 )
+
+_SEXPR_TRUSTED = ["the translator lib/gen_tables.py (gocc tables and sexpr.bnf -> plain Coq data); a wrong transcription would also show in the correspondence, since the REAL lexer and parser are run against the transcribed tables and against the bnf-derived specification lexer / recursive descent",
+                  "strconv.Unquote and strconv.ParseFloat are oracle inputs recorded per literal by the harness; strconv.ParseInt is modelled; strconv.Quote/FormatInt (printing) are recorded per atom and checked to lex as one token of the atom's class",
+                  "utf8.DecodeRune is modelled (Utf8.v) and correspondence-checked on invalid UTF-8",
+                  "ast.NewVariable draws a random Index: variables are compared by name only"]
+PROPS["C14"] = dict(
+    model="LexDriver.v, LRDriver.v over gen/Tables.v (regenerated); Grammar.v over gen/GrammarGen.v (regenerated from sexpr.bnf)",
+    gens=[gens.gen_tables],
+    extra_checks=[gens.gocc_regeneration],
+    harness=[dict(name="main", n_quick=1500, n_thorough=3000, shards_quick=1, shards_thorough=8, timeout=1500, coq_timeout=1500)],
+    trusted=_SEXPR_TRUSTED,
+    assumptions=["inputs are Go strings (arbitrary bytes)"],
+    explanation="validator-based proofs over the tables transcribed from /repo on every run: lexer progress/totality, LR safety (no panic), termination, soundness w.r.t. the grammar transcribed from sexpr.bnf; tie: sexpr.Parse and lexer.Scan on generated strings against the table drivers AND against the bnf-derived regular-expression lexer + recursive descent",
+)
+PROPS["C15"] = dict(
+    model="Print.v + the C14 models",
+    gens=[gens.gen_tables],
+    harness=[dict(name="main", n_quick=1200, n_thorough=2500, shards_quick=1, shards_thorough=8, timeout=1500, coq_timeout=1500)],
+    trusted=_SEXPR_TRUSTED,
+    assumptions=["atoms are printable: grammar symbols, strings, int64, one-letter variables (floats print in a form that lexes as a symbol and are excluded, as in the property)"],
+    explanation="token-level model of SExpr.String; round trip through the grammar; tie: String() -> Parse -> String() on generated expressions, and stability on accepted inputs",
+)
